@@ -294,8 +294,17 @@ func runC19(d *RunDesc, res *RunResult) {
 							ks = append(ks, n-1, n)
 						}
 						for _, k := range ks {
-							for wd := 0; wd < 2; wd++ {
-								sf := Fault{ErrAt: k, ErrKind: (k + wd) % len(injectedErrors), ErrWithData: wd == 1, WriterTo: k%5 == 4, Transient: (k/2)%2 == 1}
+							for wd := 0; wd < 4; wd++ {
+								// error alone / with data; sticky / transient.  A complete sweep
+								// (small template) alternates stickiness, a sampled one does both.
+								if wd >= 2 && step == 1 {
+									break
+								}
+								tr := wd >= 2
+								if step == 1 {
+									tr = (k/2)%2 == 1
+								}
+								sf := Fault{ErrAt: k, ErrKind: (k + wd) % len(injectedErrors), ErrWithData: wd%2 == 1, WriterTo: k%5 == 4 && wd < 2, Transient: tr}
 								switch k % 4 {
 								case 1:
 									sf.Chunks = []int{1}
